@@ -1591,6 +1591,25 @@ theorem pot_emit_other (s : St) (ev : Ev) (c : Nat) (h1 : isDoneEv c ev = false)
   rw [h2, emit_evs, List.countP_append]
   simp [h1]
 
+/-- no exception event among the events -/
+def NR (l : List Ev) : Prop := ∀ e ∈ l, isRaised e = false
+
+theorem NR_nil : NR [] := by intro e he; simp at he
+
+theorem NR_append {l : List Ev} {ev : Ev} (h : NR l) (hev : isRaised ev = false) : NR (l ++ [ev]) := by
+  intro e he
+  rcases List.mem_append.1 he with h1 | h1
+  · exact h e h1
+  · simp at h1; subst h1; exact hev
+
+theorem NR_emit {s : St} {ev : Ev} (h : NR s.evs) (hev : isRaised ev = false) : NR (s.emit ev).evs :=
+  NR_append h hev
+
+theorem NR_of_nil {l : List Ev} (h : l = []) : NR l := by rw [h]; exact NR_nil
+
+theorem filter_of_NR {l : List Ev} (h : NR l) : l.filter isRaised = [] := by
+  rw [List.filter_eq_nil_iff]; intro e he; simp [h e he]
+
 /-- what every procedure leaves alone -/
 structure Frame (s s' : St) : Prop where
   evs : ∃ tail, s'.evs = s.evs ++ tail
@@ -1599,15 +1618,16 @@ structure Frame (s s' : St) : Prop where
   pclosed : s.pstate = .closed → s'.pstate = .closed
   flag : s'.everClosed = true → s.everClosed = true ∨ s'.pstate = .closed
   pot : ∀ c : Nat, pot s' c ≤ pot s c
+  nr : NR s.evs → NR s'.evs
 
 theorem Frame.refl (s : St) : Frame s s :=
-  ⟨⟨[], by simp⟩, rfl, fun _ _ h _ => h, id, Or.inl, fun _ => Nat.le_refl _⟩
+  ⟨⟨[], by simp⟩, rfl, fun _ _ h _ => h, id, Or.inl, fun _ => Nat.le_refl _, id⟩
 
 theorem Frame.trans {a b c : St} (h1 : Frame a b) (h2 : Frame b c) : Frame a c := by
   obtain ⟨t1, e1⟩ := h1.evs
   obtain ⟨t2, e2⟩ := h2.evs
   refine ⟨⟨t1 ++ t2, by rw [e2, e1, List.append_assoc]⟩, h2.base.trans h1.base, ?_, ?_, ?_,
-    fun x => Nat.le_trans (h2.pot x) (h1.pot x)⟩
+    fun x => Nat.le_trans (h2.pot x) (h1.pot x), fun h => h2.nr (h1.nr h)⟩
   · intro j st hj hne; exact h2.keep j st (h1.keep j st hj hne) hne
   · intro h; exact h2.pclosed (h1.pclosed h)
   · intro h
@@ -1622,15 +1642,17 @@ theorem Frame.mem_evs {s s' : St} (h : Frame s s') {e : Ev} (he : e ∈ s.evs) :
 
 theorem frame_emit_closed (s : St) (sid : Nat) : Frame s (s.emit (.closed sid)) :=
   ⟨⟨[.closed sid], rfl⟩, rfl, fun j st h _ => by rw [view_emit, calls_closed]; exact h, id, Or.inl,
-   fun c => Nat.le_of_eq (pot_emit_other s _ c rfl (by rw [view_emit, calls_closed]))⟩
+   fun c => Nat.le_of_eq (pot_emit_other s _ c rfl (by rw [view_emit, calls_closed])),
+   fun h => NR_emit h rfl⟩
 
 theorem frame_emit_created (s : St) (sid : Nat) (ok : Bool) : Frame s (s.emit (.created sid ok)) :=
   ⟨⟨[.created sid ok], rfl⟩, rfl, fun j st h _ => by rw [view_emit, calls_created]; exact h, id, Or.inl,
-   fun c => Nat.le_of_eq (pot_emit_other s _ c rfl (by rw [view_emit, calls_created]))⟩
+   fun c => Nat.le_of_eq (pot_emit_other s _ c rfl (by rw [view_emit, calls_created])),
+   fun h => NR_emit h rfl⟩
 
 theorem frame_emit_done_pending (s : St) (c : Nat) (out : Outcome) (hc : s.view.calls[c]? = some .pending) :
     Frame s (s.emit (.done c out)) := by
-  refine ⟨⟨[.done c out], rfl⟩, rfl, ?_, id, Or.inl, ?_⟩
+  refine ⟨⟨[.done c out], rfl⟩, rfl, ?_, id, Or.inl, ?_, fun h => NR_emit h rfl⟩
   · intro j st h hne
     rw [view_emit, calls_done]
     split
@@ -1653,7 +1675,7 @@ theorem frame_emit_done_pending (s : St) (c : Nat) (out : Outcome) (hc : s.view.
 /-- a state that differs from `s` only in the pool's own lists, counters and flags -/
 theorem frame_with (s : St) (c w : List Nat) (sz : Nat) (t : List Nat) :
     Frame s { s with cache := c, waiters := w, size := sz, tasks := t } :=
-  ⟨⟨[], by simp⟩, rfl, fun _ _ h _ => h, id, Or.inl, fun _ => Nat.le_refl _⟩
+  ⟨⟨[], by simp⟩, rfl, fun _ _ h _ => h, id, Or.inl, fun _ => Nat.le_refl _, id⟩
 
 theorem minv_with {cfg : Cfg} {hf gate : Bool} {s s' : St} {h : Option Nat}
     (hi : Inv cfg h s') (he : EvOk cfg hf gate s) (h1 : s'.base = s.base) (h2 : s'.evs = s.evs) :
@@ -1733,7 +1755,7 @@ theorem closePool_spec {cfg : Cfg} {hf gate : Bool} {h : Option Nat} {s : St}
   have h1 : MInv cfg hf gate h { s with pstate := .closed, everClosed := true } :=
     minv_with hinv hev rfl rfl
   have f1 : Frame s { s with pstate := .closed, everClosed := true } :=
-    ⟨⟨[], by simp⟩, rfl, fun _ _ h _ => h, fun _ => rfl, fun _ => Or.inr rfl, fun _ => Nat.le_refl _⟩
+    ⟨⟨[], by simp⟩, rfl, fun _ _ h _ => h, fun _ => rfl, fun _ => Or.inr rfl, fun _ => Nat.le_refl _, id⟩
   obtain ⟨b1, b2, b3, b4, b5, b6, b7, b8, b9⟩ := flush_spec (cfg := cfg) (hf := hf) (gate := gate) (h := h)
     ({ s with pstate := .closed, everClosed := true } : St).cache _ h1
   have hnd : (List.foldl discard { s with pstate := .closed, everClosed := true }
@@ -2058,7 +2080,8 @@ theorem release_lent {cfg : Cfg} {hf gate : Bool} {s0 : St} {c sid : Nat}
     ((release cfg s0 sid).everClosed = true →
       s0.everClosed = true ∨ (release cfg s0 sid).pstate = .closed) ∧
     (∀ c' : Nat, c' ≠ c → pot (release cfg s0 sid) c' ≤ pot s0 c') ∧
-    (release cfg s0 sid).view.calls[c]? = some (relStat s0.view c) := by
+    (release cfg s0 sid).view.calls[c]? = some (relStat s0.view c) ∧
+    NR (release cfg s0 sid).evs := by
   obtain ⟨st0, hcs, hholds⟩ := hm.inv.lentCall sid c hl
   have hclt : c < s0.view.calls.length := by
     by_contra h; simp at h; simp [List.getElem?_eq_none h] at hcs
@@ -2074,7 +2097,7 @@ theorem release_lent {cfg : Cfg} {hf gate : Bool} {s0 : St} {c sid : Nat}
     rintro c' hc' ⟨h, _⟩
     rw [hl] at h; injection h with h; subst h
     rw [hcs] at hc'; injection hc' with hc'; subst hc'; simp [CStat.holds] at hholds
-  refine ⟨a1, ?_, ⟨tail, ?_⟩, ?_, ?_, ?_, hc1⟩
+  refine ⟨a1, ?_, ⟨tail, ?_⟩, ?_, ?_, ?_, hc1, a2.nr (NR_emit (NR_of_nil he) rfl)⟩
   · rw [a2.base]; rfl
   · rw [htail, emit_evs, he]; rfl
   · intro hp hd
@@ -2108,13 +2131,14 @@ theorem drain_started {cfg : Cfg} {hf gate : Bool} {s0 : St} {c sid : Nat} (out 
         Ev.done c' .serviceClosed ∈ ((release cfg s0 sid).emit (.done c out)).evs) ∧
     (((release cfg s0 sid).emit (.done c out)).everClosed = true →
       s0.everClosed = true ∨ ((release cfg s0 sid).emit (.done c out)).pstate = .closed) ∧
-    (∀ c' : Nat, c' ≠ c → pot ((release cfg s0 sid).emit (.done c out)) c' ≤ pot s0 c') := by
+    (∀ c' : Nat, c' ≠ c → pot ((release cfg s0 sid).emit (.done c out)) c' ≤ pot s0 c') ∧
+    NR ((release cfg s0 sid).emit (.done c out)).evs := by
   have hl : holderOf s0.view sid = some c := hm.inv.startedLent sid c _ hst rfl
-  obtain ⟨a1, a2, ⟨tail, a3⟩, a4, a5, a6, a7⟩ := release_lent (cfg := cfg) hm he hl
+  obtain ⟨a1, a2, ⟨tail, a3⟩, a4, a5, a6, a7, a8⟩ := release_lent (cfg := cfg) hm he hl
   have hrs : relStat s0.view c = .released := by unfold relStat; rw [hst]
   rw [hrs] at a7
   refine ⟨⟨emit_done a1.inv c out a7 rfl, evOk_emit a1.ev (evCheck_done out a7 rfl)⟩,
-    by rw [emit_base, a2], ⟨tail ++ [.done c out], by rw [emit_evs, a3]; rfl⟩, ?_, a5, ?_⟩
+    by rw [emit_base, a2], ⟨tail ++ [.done c out], by rw [emit_evs, a3]; rfl⟩, ?_, a5, ?_, NR_emit a8 rfl⟩
   · intro hp hd
     obtain ⟨b1, b2⟩ := a4 hp hd
     exact ⟨b1, fun c' hc' => by rw [emit_evs]; exact List.mem_append_left _ (b2 c' hc')⟩
@@ -2143,6 +2167,13 @@ structure StepOk (cfg : Cfg) (m : Mon) (s : St) (op : Op) (r : St) : Prop where
   handoff : clHandoff m (preOp s.base op) op (obsOf r) = .ok
   close : clClose m (preOp s.base op) op (obsOf r) = .ok
   flag : r.everClosed = true → s.everClosed = true ∨ r.pstate = .closed
+  raise : clRaise op (obsOf r) = .ok
+
+theorem clRaise_of_NR (op : Op) {o : Obs} (h : NR o.evs) : clRaise op o = .ok := by
+  unfold clRaise; rw [filter_of_NR h]
+
+theorem clRaise_nil (op : Op) {o : Obs} (h : o.evs = []) : clRaise op o = .ok :=
+  clRaise_of_NR op (by rw [h]; exact NR_nil)
 
 theorem deadRelease_nil (m : Mon) (v0 : View) (op : Op) (o : Obs) (h : o.evs = []) :
     deadRelease m v0 op o = false := by
@@ -2171,7 +2202,7 @@ theorem clClose_of_closed {m : Mon} {v0 : View} {op : Op} {o : Obs} (hp : o.psta
 theorem stepOk_die {cfg : Cfg} {m : Mon} {s : St} (sid : Nat) (hi : Inv cfg none s) (hc : Coupled s m) :
     StepOk cfg m s (.die sid) (stepSt cfg s (.die sid)) := by
   have h0 : Inv cfg none { s with base := preOp s.base (.die sid) } := inv_preOp_die hi hc.evs sid
-  refine ⟨minv_start h0 hc.evs, rfl, rfl, rfl, ?_, Or.inl⟩
+  refine ⟨minv_start h0 hc.evs, rfl, rfl, rfl, ?_, Or.inl, clRaise_nil _ hc.evs⟩
   exact clClose_of_not_dead (deadRelease_nil _ _ _ _ hc.evs) (by simp)
 
 theorem stepOk_close {cfg : Cfg} {m : Mon} {s : St} (hi : Inv cfg none s) (hc : Coupled s m) :
@@ -2179,7 +2210,7 @@ theorem stepOk_close {cfg : Cfg} {m : Mon} {s : St} (hi : Inv cfg none s) (hc : 
   have hm : MInv cfg false (!m.closedSeen) none s := minv_start hi hc.evs
   obtain ⟨a1, a2, a3, a4, a5, a6, a7, a8, a9⟩ := closePool_spec (set_closed hi) hm.ev
   have hv : s.view = s.base := view_of_nil hc.evs
-  refine ⟨a1, a2.base, rfl, rfl, ?_, fun _ => Or.inr a7⟩
+  refine ⟨a1, a2.base, rfl, rfl, ?_, fun _ => Or.inr a7, clRaise_of_NR _ (a2.nr (NR_of_nil hc.evs))⟩
   apply clClose_of_closed
   · show (closePool s).pstate.code = 4
     rw [a7]; rfl
@@ -2218,7 +2249,7 @@ theorem stepOk_drain {cfg : Cfg} {m : Mon} {s : St} (op : Op) (c : Nat) (out : O
   cases hst : s.stat c with
   | none =>
     simp only
-    refine ⟨hm, hpre.symm, hsur _, hhand _ _, ?_, Or.inl⟩
+    refine ⟨hm, hpre.symm, hsur _, hhand _ _, ?_, Or.inl, clRaise_nil _ hc.evs⟩
     rw [hpre]; exact clClose_of_not_dead (deadRelease_nil _ _ _ _ hc.evs) hne
   | some st =>
     have hst' : s.view.calls[c]? = some st := hst
@@ -2226,29 +2257,31 @@ theorem stepOk_drain {cfg : Cfg} {m : Mon} {s : St} (op : Op) (c : Nat) (out : O
     | pending =>
       simp only
       refine ⟨⟨emit_done hi c out hst' rfl,
-        evOk_emit hm.ev (evCheck_done out hst' rfl)⟩, hpre.symm, hsur _, hhand _ _, ?_, Or.inl⟩
+        evOk_emit hm.ev (evCheck_done out hst' rfl)⟩, hpre.symm, hsur _, hhand _ _, ?_, Or.inl,
+        clRaise_of_NR _ (NR_emit (NR_of_nil hc.evs) rfl)⟩
       rw [hpre]
       apply clClose_of_not_dead _ hne
       simp [deadRelease, obsOf, hc.evs]
     | connecting sid =>
       simp only
       refine ⟨⟨emit_done hi c out hst' rfl,
-        evOk_emit hm.ev (evCheck_done out hst' rfl)⟩, hpre.symm, hsur _, hhand _ _, ?_, Or.inl⟩
+        evOk_emit hm.ev (evCheck_done out hst' rfl)⟩, hpre.symm, hsur _, hhand _ _, ?_, Or.inl,
+        clRaise_of_NR _ (NR_emit (NR_of_nil hc.evs) rfl)⟩
       rw [hpre]
       apply clClose_of_not_dead _ hne
       simp [deadRelease, obsOf, hc.evs]
     | orphan sid =>
       simp only
-      refine ⟨hm, hpre.symm, hsur _, hhand _ _, ?_, Or.inl⟩
+      refine ⟨hm, hpre.symm, hsur _, hhand _ _, ?_, Or.inl, clRaise_nil _ hc.evs⟩
       rw [hpre]; exact clClose_of_not_dead (deadRelease_nil _ _ _ _ hc.evs) hne
     | zombie sid =>
       simp only
-      refine ⟨hm, hpre.symm, hsur _, hhand _ _, ?_, Or.inl⟩
+      refine ⟨hm, hpre.symm, hsur _, hhand _ _, ?_, Or.inl, clRaise_nil _ hc.evs⟩
       rw [hpre]; exact clClose_of_not_dead (deadRelease_nil _ _ _ _ hc.evs) hne
     | started sid =>
       simp only
-      obtain ⟨a1, a2, ⟨tail, a3⟩, a4, a5, _⟩ := drain_started (cfg := cfg) out hm hc.evs hst'
-      refine ⟨a1, by rw [a2, hpre], hsur _, hhand _ _, ?_, a5⟩
+      obtain ⟨a1, a2, ⟨tail, a3⟩, a4, a5, _, a7⟩ := drain_started (cfg := cfg) out hm hc.evs hst'
+      refine ⟨a1, by rw [a2, hpre], hsur _, hhand _ _, ?_, a5, clRaise_of_NR _ a7⟩
       rw [hpre]
       apply clClose_of_rel hc a3 hne
       intro hp hd
@@ -2256,15 +2289,15 @@ theorem stepOk_drain {cfg : Cfg} {m : Mon} {s : St} (op : Op) (c : Nat) (out : O
       exact ⟨this.1, fun c' hc' => this.2 c' (by rw [hv]; exact hc')⟩
     | arriving =>
       simp only
-      refine ⟨hm, hpre.symm, hsur _, hhand _ _, ?_, Or.inl⟩
+      refine ⟨hm, hpre.symm, hsur _, hhand _ _, ?_, Or.inl, clRaise_nil _ hc.evs⟩
       rw [hpre]; exact clClose_of_not_dead (deadRelease_nil _ _ _ _ hc.evs) hne
     | released =>
       simp only
-      refine ⟨hm, hpre.symm, hsur _, hhand _ _, ?_, Or.inl⟩
+      refine ⟨hm, hpre.symm, hsur _, hhand _ _, ?_, Or.inl, clRaise_nil _ hc.evs⟩
       rw [hpre]; exact clClose_of_not_dead (deadRelease_nil _ _ _ _ hc.evs) hne
     | done =>
       simp only
-      refine ⟨hm, hpre.symm, hsur _, hhand _ _, ?_, Or.inl⟩
+      refine ⟨hm, hpre.symm, hsur _, hhand _ _, ?_, Or.inl, clRaise_nil _ hc.evs⟩
       rw [hpre]; exact clClose_of_not_dead (deadRelease_nil _ _ _ _ hc.evs) hne
 
 theorem stepOk_timeout {cfg : Cfg} {m : Mon} {s : St} (c : Nat) (hi : Inv cfg none s) (hc : Coupled s m) :
@@ -2281,7 +2314,8 @@ theorem stepOk_respond {cfg : Cfg} {m : Mon} {s : St} (c : Nat) (hi : Inv cfg no
   have hm : MInv cfg false (!m.closedSeen) none s := minv_start hi hc.evs
   have hv : s.view = s.base := view_of_nil hc.evs
   have hnoop : StepOk cfg m s (.respond c) s :=
-    ⟨hm, rfl, rfl, rfl, clClose_of_not_dead (deadRelease_nil _ _ _ _ hc.evs) (by simp), Or.inl⟩
+    ⟨hm, rfl, rfl, rfl, clClose_of_not_dead (deadRelease_nil _ _ _ _ hc.evs) (by simp), Or.inl,
+     clRaise_nil _ hc.evs⟩
   cases hst : s.stat c with
   | none => exact hnoop
   | some st =>
@@ -2292,8 +2326,8 @@ theorem stepOk_respond {cfg : Cfg} {m : Mon} {s : St} (c : Nat) (hi : Inv cfg no
       simp only
       have hst' : s.view.calls[c]? = some (.zombie sid) := hst
       have hl : holderOf s.view sid = some c := hi.startedLent sid c _ hst' rfl
-      obtain ⟨a1, a2, ⟨tail, a3⟩, a4, a5, _, _⟩ := release_lent (cfg := cfg) hm hc.evs hl
-      refine ⟨a1, a2, rfl, rfl, ?_, a5⟩
+      obtain ⟨a1, a2, ⟨tail, a3⟩, a4, a5, _, _, a8⟩ := release_lent (cfg := cfg) hm hc.evs hl
+      refine ⟨a1, a2, rfl, rfl, ?_, a5, clRaise_of_NR _ a8⟩
       apply clClose_of_rel (op := .respond c) hc a3 (by simp)
       intro hp hd
       have := a4 hp (by rw [hv]; exact hd)
@@ -2310,7 +2344,8 @@ theorem stepOk_run {cfg : Cfg} {m : Mon} {s : St} (hi : Inv cfg none s) (hc : Co
   have hv : s.view = s.base := view_of_nil hc.evs
   cases ht : s.tasks with
   | nil =>
-    refine ⟨hm, rfl, rfl, ?_, clClose_of_not_dead (deadRelease_nil _ _ _ _ hc.evs) (by simp), Or.inl⟩
+    refine ⟨hm, rfl, rfl, ?_, clClose_of_not_dead (deadRelease_nil _ _ _ _ hc.evs) (by simp), Or.inl,
+      clRaise_nil _ hc.evs⟩
     simp [clHandoff, hc.tasks, ht]
   | cons sid rest =>
     simp only
@@ -2321,7 +2356,9 @@ theorem stepOk_run {cfg : Cfg} {m : Mon} {s : St} (hi : Inv cfg none s) (hc : Co
     · -- hand-off to the oldest waiting call
       have hevs : (procQueue cfg { s with tasks := rest } sid s.waiters).evs = [.sent sid c] := by
         rw [b2]; show s.evs ++ _ = _; rw [hc.evs]; rfl
-      refine ⟨a1, b5, rfl, ?_, ?_, ?_⟩
+      refine ⟨a1, b5, rfl, ?_, ?_, ?_, clRaise_of_NR _ (by
+        show NR (procQueue cfg { s with tasks := rest } sid s.waiters).evs
+        rw [hevs]; intro e he; simp at he; subst he; rfl)⟩
       · simp only [clHandoff, hc.tasks, ht, preOp]
         have : oldestPending s.base = some c := by rw [← hv]; exact b1
         simp [this, obsOf, hevs]
@@ -2336,7 +2373,8 @@ theorem stepOk_run {cfg : Cfg} {m : Mon} {s : St} (hi : Inv cfg none s) (hc : Co
       have hevs : (releaseBody cfg (s'.emit (.rel sid)) sid).evs = .rel sid :: tail := by
         rw [htail, emit_evs, b3]; show (s.evs ++ _) ++ _ = _; rw [hc.evs]; rfl
       have hnop : pendingIds s.base = [] := by rw [← hv]; exact b1
-      refine ⟨c1, by rw [c2.base, emit_base, b2]; rfl, rfl, ?_, ?_, ?_⟩
+      refine ⟨c1, by rw [c2.base, emit_base, b2]; rfl, rfl, ?_, ?_, ?_,
+        clRaise_of_NR _ (c2.nr (NR_emit (by rw [b3]; exact NR_of_nil hc.evs) rfl))⟩
       · simp only [clHandoff, hc.tasks, ht, preOp]
         simp [oldestPending, hnop]
       · apply clClose_of_rel hc hevs (by simp)
@@ -2412,6 +2450,7 @@ theorem stepOk_request {cfg : Cfg} {m : Mon} {s : St} (ok lat : Bool) (hi : Inv 
   have hflag : s1.everClosed = s.everClosed := g1.everClosed
   have hnoclose : ∀ r' : St, clClose m (preOp s.base (.request ok lat)) (.request ok lat) (obsOf r') = .ok := by
     intro r'; exact clClose_of_not_dead (by simp [deadRelease]) (by simp)
+  have hnr1 : NR s1.evs := g1.frame.nr (NR_of_nil hc.evs)
   cases res with
   | sink sid fresh =>
     simp only at g2 ⊢
@@ -2429,7 +2468,7 @@ theorem stepOk_request {cfg : Cfg} {m : Mon} {s : St} (ok lat : Bool) (hi : Inv 
       exact pendingIds_nil_of_waiters_nil k1.inv this
     by_cases hfl : (fresh && lat) = true
     · rw [if_pos hfl]
-      refine ⟨⟨?_, ?_⟩, hbase1, ?_, rfl, hnoclose _, ?_⟩
+      refine ⟨⟨?_, ?_⟩, hbase1, ?_, rfl, hnoclose _, ?_, clRaise_of_NR _ (NR_emit hnr1 rfl)⟩
       · exact emit_connecting (w' := s1.waiters) k1.inv (Or.inl hcarr1) hsub k1.inv.wSorted (Nat.le_refl _)
       · exact evOk_emit k1.ev (evCheck_connecting hf.1 hf.2 hcarr1 hgate)
       · apply clSurplus_request_of
@@ -2437,7 +2476,7 @@ theorem stepOk_request {cfg : Cfg} {m : Mon} {s : St} (ok lat : Bool) (hi : Inv 
         exact ⟨sid, by rw [hmc]; simp [obsOf]⟩
       · intro h; left; rw [← hflag]; exact h
     · rw [if_neg hfl]
-      refine ⟨⟨?_, ?_⟩, hbase1, ?_, rfl, hnoclose _, ?_⟩
+      refine ⟨⟨?_, ?_⟩, hbase1, ?_, rfl, hnoclose _, ?_, clRaise_of_NR _ (NR_emit hnr1 rfl)⟩
       · exact emit_sent (w' := s1.waiters) k1.inv (Or.inl hcarr1) hsub k1.inv.wSorted (Nat.le_refl _)
       · exact evOk_emit k1.ev (evCheck_sent (hf := false) hf.1 hf.2 (Or.inl hcarr1) (fun h => Bool.noConfusion h) hgate)
       · apply clSurplus_request_of
@@ -2447,7 +2486,8 @@ theorem stepOk_request {cfg : Cfg} {m : Mon} {s : St} (ok lat : Bool) (hi : Inv 
   | queue =>
     simp only at g2 ⊢
     obtain ⟨k1, k2, k3, k4⟩ := g2
-    refine ⟨⟨emit_queued k1.inv hcarr1 hlen1 k2 k3 k4, ?_⟩, hbase1, ?_, rfl, hnoclose _, ?_⟩
+    refine ⟨⟨emit_queued k1.inv hcarr1 hlen1 k2 k3 k4, ?_⟩, hbase1, ?_, rfl, hnoclose _, ?_,
+      clRaise_of_NR _ (NR_emit (s := { s1 with waiters := s1.waiters ++ [s.base.calls.length] }) hnr1 rfl)⟩
     · exact evOk_emit (s := { s1 with waiters := s1.waiters ++ [s.base.calls.length] }) k1.ev
         (evCheck_queued hcarr1)
     · apply clSurplus_request_of
@@ -2458,51 +2498,74 @@ theorem stepOk_request {cfg : Cfg} {m : Mon} {s : St} (ok lat : Bool) (hi : Inv 
     · intro h; left; rw [← hflag]; exact h
   | fail =>
     simp only at g2 ⊢
-    refine ⟨⟨emit_done g2.inv _ _ hcarr1 rfl, ?_⟩, hbase1, ?_, rfl, hnoclose _, ?_⟩
+    refine ⟨⟨emit_done g2.inv _ _ hcarr1 rfl, ?_⟩, hbase1, ?_, rfl, hnoclose _, ?_,
+      clRaise_of_NR _ (NR_emit hnr1 rfl)⟩
     · exact evOk_emit g2.ev (evCheck_done _ hcarr1 rfl)
     · apply clSurplus_request_of
       right; right; right
       rw [hmc]; simp [obsOf]
     · intro h; left; rw [← hflag]; exact h
 
-theorem stepOk_openPool {cfg : Cfg} {m : Mon} {s : St} (hi : Inv cfg none s) (hc : Coupled s m) :
-    StepOk cfg m s (.openPool true) (stepSt cfg s (.openPool true)) := by
+theorem emit_raised {cfg : Cfg} {s : St} {h : Option Nat} (hi : Inv cfg h s) (w : String) :
+    Inv cfg h (s.emit (.raised w)) :=
+  inv_of_view_eq hi (by rw [view_emit, calls_raised]) rfl rfl rfl rfl rfl rfl
+
+/-- the end of `_OpenImpl` -/
+theorem openEnd_ok {cfg : Cfg} {m : Mon} {s s2 : St} (ok : Bool)
+    (hm : MInv cfg false (!m.closedSeen) none s2) (hb : s2.base = s.base) (hnr : NR s2.evs)
+    (hflag : s2.everClosed = true → s.everClosed = true ∨ s2.pstate = .closed) :
+    StepOk cfg m s (.openPool ok) (openEnd s2) := by
+  have hnoclose : ∀ r' : St, clClose m (preOp s.base (.openPool ok)) (.openPool ok) (obsOf r') = .ok := by
+    intro r'; exact clClose_of_not_dead (by simp [deadRelease]) (by simp)
+  unfold openEnd
+  by_cases hp : s2.pstate = .closed
+  · rw [if_pos hp]
+    refine ⟨⟨emit_raised hm.inv _, evOk_emit hm.ev rfl⟩, hb, rfl, rfl, hnoclose _, fun _ => Or.inr hp, ?_⟩
+    unfold clRaise
+    have : (obsOf (s2.emit (.raised "ServiceClosedError"))).evs.filter isRaised =
+        [.raised "ServiceClosedError"] := by
+      show (s2.evs ++ [_]).filter isRaised = _
+      rw [List.filter_append, filter_of_NR hnr]; rfl
+    rw [this]
+    have hp4 : (obsOf (s2.emit (.raised "ServiceClosedError"))).pstate = 4 := by
+      show s2.pstate.code = 4; rw [hp]; rfl
+    simp [isOpenPool, hp4]
+  · rw [if_neg hp]
+    refine ⟨minv_with (set_opened hm.inv) hm.ev rfl rfl, hb, rfl, rfl, hnoclose _, ?_, clRaise_of_NR _ hnr⟩
+    intro h
+    rcases hflag h with h1 | h1
+    · exact Or.inl h1
+    · exact absurd h1 hp
+
+theorem stepOk_openPool {cfg : Cfg} {m : Mon} {s : St} (ok : Bool) (hi : Inv cfg none s) (hc : Coupled s m) :
+    StepOk cfg m s (.openPool ok) (stepSt cfg s (.openPool ok)) := by
   have hm0 : MInv cfg false (!m.closedSeen) none s := minv_start hi hc.evs
-  obtain ⟨g1, g2⟩ := get_spec (cfg := cfg) true hm0
-  show StepOk cfg m s (.openPool true)
-    (match get cfg s true with
-     | (s1, .sink sid _) => { release cfg s1 sid with pstate := .opened }
-     | (s1, _) => { s1 with pstate := .opened })
-  generalize hget : get cfg s true = r at g1 g2
+  obtain ⟨g1, g2⟩ := get_spec (cfg := cfg) ok hm0
+  show StepOk cfg m s (.openPool ok)
+    (openEnd (match get cfg s ok with
+     | (s1, .sink sid _) => release cfg s1 sid
+     | (s1, _) => s1))
+  generalize hget : get cfg s ok = r at g1 g2
   obtain ⟨s1, res⟩ := r
   simp only at g1 g2
-  have hnoclose : ∀ r' : St, clClose m (preOp s.base (.openPool true)) (.openPool true) (obsOf r') = .ok := by
-    intro r'; exact clClose_of_not_dead (by simp [deadRelease]) (by simp)
-  have hother : ∀ (hm1 : MInv cfg false (!m.closedSeen) none s1),
-      StepOk cfg m s (.openPool true) { s1 with pstate := .opened } := by
-    intro hm1
-    refine ⟨minv_with (set_opened hm1.inv) hm1.ev rfl rfl, g1.frame.base, rfl, rfl, hnoclose _, ?_⟩
+  have hnr1 : NR s1.evs := g1.frame.nr (NR_of_nil hc.evs)
+  have hfl1 : s1.everClosed = true → s.everClosed = true ∨ s1.pstate = .closed := by
     intro h; left; rw [← g1.everClosed]; exact h
   cases res with
-  | sink sid =>
+  | sink sid fresh =>
     simp only at g2 ⊢
-    obtain ⟨k1, k2, k3⟩ := g2
-    have hm2 := minv_rel_free k1
+    have hm2 := minv_rel_free g2.1
     obtain ⟨c1, c2, c3, c4⟩ := releaseBody_spec (cfg := cfg) hm2
-    have halive : isAlive (s1.emit (.rel sid)).view sid = true := by
-      rw [view_emit, isAlive_rel]; exact k2 trivial
-    have := c4 (Or.inr halive)
     rw [release_eq]
-    refine ⟨minv_with (set_opened c1.inv) c1.ev rfl rfl, ?_, rfl, rfl, hnoclose _, ?_⟩
-    · show (releaseBody cfg (s1.emit (.rel sid)) sid).base = _
-      rw [c2.base, emit_base, g1.frame.base]; rfl
+    apply openEnd_ok ok c1
+    · rw [c2.base, emit_base, g1.frame.base]
+    · exact c2.nr (NR_emit hnr1 rfl)
     · intro h
-      left
-      have h' : (releaseBody cfg (s1.emit (.rel sid)) sid).everClosed = true := h
-      rw [this.1, emit_everClosed, g1.everClosed] at h'
-      exact h'
-  | queue => exact hother g2.1
-  | fail => exact hother g2
+      rcases c2.flag h with h1 | h1
+      · left; rw [emit_everClosed, g1.everClosed] at h1; exact h1
+      · exact Or.inr h1
+  | queue => exact openEnd_ok ok g2.1 g1.frame.base hnr1 hfl1
+  | fail => exact openEnd_ok ok g2 g1.frame.base hnr1 hfl1
 
 theorem lentIds_sent_same (v : View) (sid c : Nat) (h : holderOf v sid = some c) :
     lentIds (v.apply (.sent sid c)) = lentIds v := by
@@ -2600,7 +2663,7 @@ theorem stepOk_opened {cfg : Cfg} {m : Mon} {s : St} (sid : Nat) (ok : Bool) (hi
   have hnoclose : ∀ r' : St, clClose m (preOp s.base (.opened sid ok)) (.opened sid ok) (obsOf r') = .ok := by
     intro r'; exact clClose_of_not_dead (by simp [deadRelease]) (by simp)
   have hnoop : StepOk cfg m s (.opened sid ok) { s with base := preOp s.base (.opened sid ok) } :=
-    ⟨hm0, rfl, rfl, rfl, hnoclose _, Or.inl⟩
+    ⟨hm0, rfl, rfl, rfl, hnoclose _, Or.inl, clRaise_nil _ hc.evs⟩
   show StepOk cfg m s (.opened sid ok) (openedSt { s with base := preOp s.base (.opened sid ok) } sid)
   unfold openedSt
   cases hk : ({ s with base := preOp s.base (.opened sid ok) } : St).view.sinks[sid]? with
@@ -2618,7 +2681,7 @@ theorem stepOk_opened {cfg : Cfg} {m : Mon} {s : St} (sid : Nat) (ok : Bool) (hi
         have hhold : holderOf ({ s with base := preOp s.base (.opened sid ok) } : St).view sid = some c := by
           simp [holderOf, hk, hl]
         exact ⟨⟨emit_sent_opened h0 hflag hhold, evOk_emit hm0.ev (evCheck_sent_opened hk hop hl)⟩,
-          rfl, rfl, rfl, hnoclose _, Or.inl⟩
+          rfl, rfl, rfl, hnoclose _, Or.inl, clRaise_of_NR _ (NR_emit (NR_of_nil hc.evs) rfl)⟩
     · rw [if_neg hop]; exact hnoop
 
 theorem stepSt_ok {cfg : Cfg} {m : Mon} {s : St} (op : Op) (hi : Inv cfg none s) (hc : Coupled s m)
@@ -2631,10 +2694,7 @@ theorem stepSt_ok {cfg : Cfg} {m : Mon} {s : St} (op : Op) (hi : Inv cfg none s)
   | die sid => exact stepOk_die sid hi hc
   | run => exact stepOk_run hi hc
   | close => exact stepOk_close hi hc
-  | openPool ok =>
-    have : ok = true := hop
-    subst this
-    exact stepOk_openPool hi hc
+  | openPool ok => exact stepOk_openPool ok hi hc
 
 theorem Verdict.all_ok (l : List Verdict) (h : ∀ v ∈ l, v = .ok) : Verdict.all l = .ok := by
   induction l with
@@ -2682,7 +2742,7 @@ theorem step_ok {cfg : Cfg} {m : Mon} {s : St} (op : Op) (hi : Inv cfg none s) (
       apply Verdict.all_ok
       intro v hv
       simp only [List.mem_cons, List.mem_nil_iff, or_false] at hv
-      rcases hv with rfl | rfl | rfl | rfl | rfl | rfl | rfl
+      rcases hv with rfl | rfl | rfl | rfl | rfl | rfl | rfl | rfl
       · exact h.surplus
       · exact clQueueBound_ok h.minv.inv
       · rw [hc.view]; exact h.handoff
@@ -2690,6 +2750,7 @@ theorem step_ok {cfg : Cfg} {m : Mon} {s : St} (op : Op) (hi : Inv cfg none s) (
       · exact clSize_ok h.minv.inv
       · exact clWork_ok h.minv.inv
       · exact clIdle_ok h.minv.inv
+      · exact h.raise
 
 /-- the model's state after a list of operations -/
 def runOps (cfg : Cfg) (s : St) (ops : List Op) : St := ops.foldl (fun s op => (step cfg s op).1) s
@@ -2711,39 +2772,14 @@ theorem spec_trace {cfg : Cfg} : ∀ (ops : List Op) (s : St) (m : Mon), Inv cfg
     rw [Verdict.and_ok_iff]
     exact ⟨a3, b1⟩
 
-/-- the invariant alone needs no hypothesis on the operations -/
-theorem inv_openPool {cfg : Cfg} {s : St} (ok : Bool) (hi : Inv cfg none s) (he : s.evs = []) :
-    Inv cfg none (stepSt cfg s (.openPool ok)) := by
-  have hm0 : MInv cfg false false none s := minv_start hi he
-  obtain ⟨g1, g2⟩ := get_spec (cfg := cfg) ok hm0
-  show Inv cfg none
-    (match get cfg s ok with
-     | (s1, .sink sid _) => { release cfg s1 sid with pstate := .opened }
-     | (s1, _) => { s1 with pstate := .opened })
-  generalize hget : get cfg s ok = r at g1 g2
-  obtain ⟨s1, res⟩ := r
-  simp only at g1 g2
-  cases res with
-  | sink sid =>
-    simp only at g2 ⊢
-    have hm2 := minv_rel_free g2.1
-    obtain ⟨c1, c2, c3, c4⟩ := releaseBody_spec (cfg := cfg) hm2
-    rw [release_eq]
-    exact set_opened c1.inv
-  | queue => exact set_opened g2.1.inv
-  | fail => exact set_opened g2.inv
-
+/-- the invariant needs no hypothesis on the operations -/
 theorem inv_step {cfg : Cfg} {s : St} (op : Op) (hi : Inv cfg none s) (he : s.evs = []) :
     Inv cfg none (step cfg s op).1 ∧ (step cfg s op).1.evs = [] := by
   refine ⟨?_, rfl⟩
   show Inv cfg none (finish (stepSt cfg s op))
   apply inv_finish
-  by_cases hop : opOk op = true
-  · exact (stepSt_ok (m := ⟨s.base, s.pstate.code, s.tasks, true⟩) op hi
-      ⟨rfl, rfl, rfl, fun h => by simp at h, he⟩ hop).minv.inv
-  · cases op with
-    | openPool ok => exact inv_openPool ok hi he
-    | _ => simp [opOk] at hop
+  exact (stepSt_ok (m := ⟨s.base, s.pstate.code, s.tasks, true⟩) op hi
+    ⟨rfl, rfl, rfl, fun h => by simp at h, he⟩ rfl).minv.inv
 
 theorem inv_runOps {cfg : Cfg} (ops : List Op) : ∀ s : St, Inv cfg none s → s.evs = [] →
     Inv cfg none (runOps cfg s ops) ∧ (runOps cfg s ops).evs = [] := by
@@ -2983,7 +3019,7 @@ theorem dead_release_once {cfg : Cfg} {s : St} (hi : Inv cfg none s) (he : s.evs
   have hst' : s.view.calls[c0]? = some (.started sid) := by rw [hv]; exact hst
   have hst'' : s.stat c0 = some (.started sid) := hst'
   have hm : MInv cfg false false none s := minv_start hi he
-  obtain ⟨a1, a2, a3, a4, a5, a6⟩ := drain_started (cfg := cfg) .reply hm he hst'
+  obtain ⟨a1, a2, a3, a4, a5, a6, _⟩ := drain_started (cfg := cfg) .reply hm he hst'
   have h1 : stepSt cfg s (.respond c0) = (release cfg s sid).emit (.done c0 .reply) := by
     show (match s.stat c0 with
       | some (.started _) => drainCall cfg s c0 .reply
